@@ -35,7 +35,9 @@ func genC04(t *rapid.T) *c04Case {
 	names, vals := gen.FilterColumns(ds)
 	n := rapid.IntRange(1, pt.Scale(5, 10)).Draw(t, "nQueries")
 	for i := 0; i < n; i++ {
-		cs.Queries = append(cs.Queries, gen.GenStatsQuery(t, ds, names, vals))
+		q := gen.GenStatsQuery(t, ds, names, vals)
+		gen.MaybeTimechartBy(t, q, names, vals)
+		cs.Queries = append(cs.Queries, q)
 	}
 	return cs
 }
@@ -521,6 +523,44 @@ func checkTimechart(q *model.StatsQuery, text string, sr *sut.SearchResult, matc
 			return fmt.Errorf("matched event _vid=%d ts=%d lies in no reported bucket %v", e.Vid, e.Ts, starts(sr))
 		}
 		per[found] = append(per[found], e)
+	}
+	if len(q.By) == 1 {
+		// `timechart … by f`: one series per measure and value of f, reported as "<measure>: <value>". Cells
+		// without an event are filled in by the engine (not stated); every cell that has events is checked.
+		nSeries := map[string]bool{}
+		for i, b := range bs {
+			byVal := map[string][]*model.Event{}
+			var order []string
+			for _, e := range per[i] {
+				flat, _ := e.Flat()
+				v, ok := flat[q.By[0]]
+				if !ok || v.K != model.KStr {
+					continue // events without the split-by field form the null series, which is not compared
+				}
+				if _, seen := byVal[v.S]; !seen {
+					order = append(order, v.S)
+				}
+				byVal[v.S] = append(byVal[v.S], e)
+			}
+			sort.Strings(order)
+			for _, val := range order {
+				nSeries[val] = true
+				for _, m := range q.Measures {
+					ex := model.ExpectMeasure(byVal[val], m, kinds)
+					key := m.Key() + ": " + val
+					v, present := b.b.Vals[key]
+					if err := compareMeasure(key, v, present, ex, true, o); err != nil {
+						return fmt.Errorf("bucket [%d,+%d) series %q: %v", b.start, q.SpanMs, val, err)
+					}
+				}
+			}
+		}
+		o.Class("timechart_by")
+		if len(bs) >= 2 && len(nSeries) >= 2 {
+			o.NonTrivial()
+			o.Class("timechart_by_multi")
+		}
+		return nil
 	}
 	for i, b := range bs {
 		for _, m := range q.Measures {
